@@ -115,8 +115,8 @@ def harnesses(tier):
     return hs
 
 
-def run(rep, tier):
-    hs = harnesses(tier)
+def run(rep, tier, hs=None):
+    hs = hs or harnesses(tier)
     harness.build(hs, "c09", per_tu=8)
     for h in hs:
         N, T, kind = h.meta["N"], h.meta["T"], h.meta["kind"]
